@@ -8,6 +8,14 @@ missing optional is expressed by omission.
 Oracle (real code only): parse_raw(o.json()) == o, parse_raw(bytes(o)) == o,
 parse_raw(o.yaml()) == o, second trip gives identical text (set-free instances), declared
 constants present in json_dict() with their value and ignored on input.
+Histories (real code only): an instance is a live, mutable object (validate_assignment). The same
+clauses are checked on instances that were *reached* by a history of ordinary operations on one
+object: dump (any form) / assignment of a valid value at any depth (nested schema instance, list
+item, dict value, extra field) / in-place list, dict and set updates / copy(), copy(deep=True),
+copy(update=...) at any depth / re-parse of the own output. Values are taken from a second valid
+instance of the same schema at the same static field position. A reached state is checked only if
+it is equal to a freshly validated instance built from the harness's own walk of the object (so it
+is a valid instance in the sense of the statement, and None means omitted).
 Correspondence: value obtained by pydantic vs. model `decode`, JSON produced by pydantic vs.
 model `encode` (parsed JSON equality, arrays of set-typed positions sorted).
 """
@@ -67,13 +75,15 @@ def _short(x, n=300):
     return s if len(s) <= n else s[:n] + "..."
 
 
-def check_instance(S, o, inp, schema_name):
+def check_instance(S, o, inp, schema_name, hist=None):
     """All clauses of the property for one valid instance. Returns list of violation dicts."""
     V = []
 
     def bad(kind, **kw):
         d = dict(kind=kind, schema=schema_name, input=inp)
         d.update({k: _short(v) for k, v in kw.items()})
+        if hist is not None:
+            d["history"] = hist
         V.append(d)
 
     forms = {}
@@ -145,6 +155,364 @@ def check_instance(S, o, inp, schema_name):
     return V
 
 
+# ----------------------------------------------------------------------------- histories (real code)
+# Paths into a live object: list of steps ["a", field/extra name] | ["i", list index] | ["k", dict key].
+# Ops (explicit, JSON-able; a random history is generated on the fly and recorded in this form):
+#   ["check"]                                   all clauses on the current state (if it is a verified valid instance)
+#   ["dump", form]                              json | bytes | yaml | json_dict | dict | str, result ignored
+#   ["reparse", form]                           continue with S.parse_raw(own output)
+#   ["set", path, src, dpath]                   assign (attribute / list item / dict value) a copy of the donor value
+#   ["unset", path]                             assign None (= omitted) to an attribute
+#   ["ins", listpath, pos, src, dpath]          list.insert of a donor element
+#   ["pop", listpath, idx]   ["delkey", dictpath, key]   ["setkey", dictpath, key, src, dpath]
+#   ["union", setpath, src, dpath]              set |= donor set
+#   ["copy", modelpath, deep]                   replace the (nested) instance by its copy()
+#   ["copyupd", modelpath, name, src, dpath]    replace the (nested) instance by copy(update={name: donor value})
+# src = "a" (pristine twin of the start instance) | "b" (second valid instance); a donor value always comes
+# from the same static position (class, field[, item]) as the place it is put into.
+DUMP_FORMS = ["json", "bytes", "yaml", "json_dict", "dict", "str"]
+HIST_KEYS = ["zz_extra", "k", "e2", "with space", "Üx"]
+
+
+def _slots(x, path, tkey, out):
+    from pydantic import BaseModel
+
+    if isinstance(x, BaseModel):
+        C = type(x)
+        consts = getattr(C, "__constants__", {})
+        for n in C.__fields__:
+            if n in consts:
+                continue
+            v = x.__dict__.get(n)
+            out.append((path + [["a", n]], (C, n), v))
+            _slots(v, path + [["a", n]], (C, n), out)
+        for n, v in x.__dict__.items():
+            if n not in C.__fields__ and n not in consts:
+                out.append((path + [["a", n]], (C, "*extra*"), v))
+                _slots(v, path + [["a", n]], (C, "*extra*"), out)
+    elif isinstance(x, list):
+        for i, v in enumerate(x):
+            out.append((path + [["i", i]], tkey + ("[]",), v))
+            _slots(v, path + [["i", i]], tkey + ("[]",), out)
+    elif isinstance(x, dict):
+        for k, v in x.items():
+            out.append((path + [["k", k]], tkey + ("{}",), v))
+            _slots(v, path + [["k", k]], tkey + ("{}",), out)
+    return out
+
+
+def _resolve(root, path):
+    cur = root
+    for kind, key in path:
+        if kind == "a":
+            if not hasattr(cur, "__fields__") or key not in cur.__dict__:
+                raise LookupError(key)
+            cur = cur.__dict__[key]
+        elif kind == "i":
+            if not isinstance(cur, list):
+                raise LookupError(key)
+            cur = cur[key]
+        else:
+            if not isinstance(cur, dict):
+                raise LookupError(key)
+            cur = cur[key]
+    return cur
+
+
+def _tkey_of(root, path):
+    """Static position of a path (same computation as in _slots)."""
+    cur, tk = root, ("root",)
+    for kind, key in path:
+        if kind == "a":
+            C = type(cur)
+            tk = (C, key if key in C.__fields__ else "*extra*")
+            cur = cur.__dict__[key]
+        else:
+            tk = tk + ("[]" if kind == "i" else "{}",)
+            cur = cur[key]
+    return tk
+
+
+def _assign(root, path, val):
+    parent = _resolve(root, path[:-1])
+    kind, key = path[-1]
+    if kind == "a":
+        if not hasattr(parent, "__fields__"):
+            raise LookupError(key)
+        setattr(parent, key, val)  # validate_assignment
+    elif kind == "i":
+        if not isinstance(parent, list) or not (0 <= key < len(parent)):
+            raise LookupError(key)
+        parent[key] = val
+    else:
+        if not isinstance(parent, dict):
+            raise LookupError(key)
+        parent[key] = val
+
+
+def _raw(v, top=True):
+    """The harness's own walk of a live value into a parse_obj input (None = omitted)."""
+    from pydantic import BaseModel
+
+    if isinstance(v, BaseModel):
+        C = type(v)
+        consts = getattr(C, "__constants__", {})
+        d = {}
+        for n, x in v.__dict__.items():
+            if n in consts or x is None:
+                continue
+            f = C.__fields__.get(n)
+            d[f.alias if f is not None else n] = _raw(x)
+        return d
+    if isinstance(v, (list, tuple)):
+        return [_raw(x) for x in v]
+    if isinstance(v, (set, frozenset)):
+        return [_raw(x) for x in v]
+    if isinstance(v, dict):
+        return {k: _raw(x) for k, x in v.items()}
+    return v
+
+
+def _verified(S, o):
+    """Is the reached state equal to a freshly validated instance (so: a valid instance)?"""
+    try:
+        ref = S.parse_obj(_raw(o))
+        return bool(ref == o) and bool(o == ref) and type(ref) is type(o)
+    except Exception:
+        return False
+
+
+def _dump(o, form):
+    if form == "json":
+        return o.json()
+    if form == "bytes":
+        return bytes(o)
+    if form == "yaml":
+        return o.yaml()
+    if form == "json_dict":
+        return o.json_dict()
+    if form == "dict":
+        return o.dict()
+    return str(o)
+
+
+def _differs(x, y):
+    try:
+        return not (x == y)
+    except Exception:
+        return True
+
+
+def _gen_op(rng, o, donors):
+    from pydantic import BaseModel
+
+    slots = _slots(o, [], ("root",), [])
+    dindex = {}
+    for src in sorted(donors):
+        for p, tk, v in _slots(donors[src], [], ("root",), []):
+            dindex.setdefault(tk, []).append((src, p, v))
+
+    def donor(tk, cur=None, pred=None):
+        c = [x for x in dindex.get(tk, []) if pred is None or pred(x[2])]
+        if not c:
+            return None
+        for _ in range(4):
+            x = rng.choice(c)
+            if cur is None or _differs(x[2], cur):
+                return x
+        return x
+
+    kinds = ["set"] * 6 + ["ins"] * 3 + ["pop", "setkey", "delkey", "union", "union", "unset", "copy", "copyupd", "copyupd", "dump", "dump", "reparse"] + ["check"] * 5
+    for _ in range(6):
+        k = rng.choice(kinds)
+        if k == "check":
+            return ["check"]
+        if k == "dump":
+            return ["dump", rng.choice(DUMP_FORMS)]
+        if k == "reparse":
+            return ["reparse", rng.choice(["json", "bytes", "yaml"])]
+        if k == "set":
+            c = [s for s in slots if s[1] in dindex]
+            if c:
+                # nested places are the interesting ones: pick by depth class first
+                deep = [s for s in c if len(s[0]) > 1]
+                p, tk, v = rng.choice(deep if deep and rng.random() < 0.6 else c)
+                d = donor(tk, v)
+                return ["set", p, d[0], d[1]]
+        if k == "unset":
+            c = [s for s in slots if s[0][-1][0] == "a" and s[2] is not None]
+            if c:
+                return ["unset", rng.choice(c)[0]]
+        if k == "ins":
+            c = [s for s in slots if isinstance(s[2], list) and (s[1] + ("[]",)) in dindex]
+            if c:
+                p, tk, v = rng.choice(c)
+                d = donor(tk + ("[]",))
+                return ["ins", p, len(v) if rng.random() < 0.6 else rng.randrange(len(v) + 1), d[0], d[1]]
+        if k == "pop":
+            c = [s for s in slots if isinstance(s[2], list) and s[2]]
+            if c:
+                p, tk, v = rng.choice(c)
+                return ["pop", p, rng.randrange(len(v))]
+        if k == "setkey":
+            c = [s for s in slots if isinstance(s[2], dict) and (s[1] + ("{}",)) in dindex]
+            if c:
+                p, tk, v = rng.choice(c)
+                d = donor(tk + ("{}",))
+                return ["setkey", p, rng.choice(HIST_KEYS + list(v)), d[0], d[1]]
+        if k == "delkey":
+            c = [s for s in slots if isinstance(s[2], dict) and s[2]]
+            if c:
+                p, tk, v = rng.choice(c)
+                return ["delkey", p, rng.choice(sorted(v, key=repr))]
+        if k == "union":
+            c = [s for s in slots if isinstance(s[2], set) and donor(s[1], pred=lambda x: isinstance(x, set))]
+            if c:
+                p, tk, v = rng.choice(c)
+                d = donor(tk, v, pred=lambda x: isinstance(x, set))
+                return ["union", p, d[0], d[1]]
+        if k in ("copy", "copyupd"):
+            mp = [([], o)] + [(s[0], s[2]) for s in slots if isinstance(s[2], BaseModel)]
+            p, m = rng.choice(mp)
+            if k == "copy":
+                return ["copy", p, rng.random() < 0.5]
+            consts = getattr(type(m), "__constants__", {})
+            names = [n for n in type(m).__fields__ if n not in consts and (type(m), n) in dindex]
+            if names:
+                n = rng.choice(names)
+                d = donor((type(m), n), m.__dict__.get(n))
+                return ["copyupd", p, n, d[0], d[1]]
+    return ["check"]
+
+
+def _apply(S, st, donors, op):
+    """Apply one mutating / observing op to the live object st["o"]. False = not applicable or
+    refused by the library (validation error on assignment): the state is then unchanged."""
+    import copy
+
+    from pydantic import BaseModel
+
+    o = st["o"]
+    k = op[0]
+    try:
+        if k == "dump":
+            try:
+                _dump(o, op[1])
+            except Exception:
+                pass  # judged by "check" on verified states only
+            return True
+        if k == "reparse":
+            st["o"] = S.parse_raw(_dump(o, op[1]))
+            return True
+        if k in ("set", "ins", "setkey", "union", "copyupd"):
+            dpath = op[-1]
+            dsrc = donors[op[-2]]
+            val = copy.deepcopy(_resolve(dsrc, dpath))
+            dtk = _tkey_of(dsrc, dpath)
+        if k == "set":
+            _resolve(o, op[1])  # the place must exist
+            if _tkey_of(o, op[1]) != dtk:
+                return False
+            _assign(o, op[1], val)
+            return True
+        if k == "unset":
+            _resolve(o, op[1])
+            _assign(o, op[1], None)
+            return True
+        if k == "ins":
+            lst = _resolve(o, op[1])
+            if not isinstance(lst, list) or _tkey_of(o, op[1]) + ("[]",) != dtk:
+                return False
+            lst.insert(op[2], val)
+            return True
+        if k == "pop":
+            lst = _resolve(o, op[1])
+            if not isinstance(lst, list) or not (0 <= op[2] < len(lst)):
+                return False
+            del lst[op[2]]
+            return True
+        if k == "setkey":
+            dct = _resolve(o, op[1])
+            if not isinstance(dct, dict) or _tkey_of(o, op[1]) + ("{}",) != dtk:
+                return False
+            dct[op[2]] = val
+            return True
+        if k == "delkey":
+            dct = _resolve(o, op[1])
+            if not isinstance(dct, dict) or op[2] not in dct:
+                return False
+            del dct[op[2]]
+            return True
+        if k == "union":
+            s = _resolve(o, op[1])
+            if not isinstance(s, set) or not isinstance(val, set) or _tkey_of(o, op[1]) != dtk:
+                return False
+            s |= val
+            return True
+        if k in ("copy", "copyupd"):
+            m = _resolve(o, op[1])
+            if not isinstance(m, BaseModel):
+                return False
+            if k == "copy":
+                m2 = m.copy(deep=bool(op[2]))
+            else:
+                if (type(m), op[2]) != dtk:
+                    return False
+                m2 = m.copy(update={op[2]: val})
+            if op[1]:
+                _assign(o, op[1], m2)
+            else:
+                st["o"] = m2
+            return True
+    except (LookupError, TypeError, ValueError, AttributeError):  # ValidationError is a ValueError
+        return False
+    raise ValueError("unknown history op %r" % (op,))
+
+
+def run_history(S, a, b, name, ops=None, seed=0, nops=8):
+    """One history on one live instance built from input `a` (donor values from `b`).
+    Returns (violations, tags); stops at the first violated check."""
+    tags = []
+    try:
+        o = S.parse_obj(json.loads(json.dumps(a)))
+        donors = {"a": S.parse_obj(json.loads(json.dumps(a))), "b": S.parse_obj(json.loads(json.dumps(b)))}
+    except Exception:
+        return [], ["hist-gen-invalid"]
+    st = {"o": o}
+    explicit = ops is not None
+    rng = random.Random(seed)
+    done = []
+    i = 0
+    while i < (len(ops) if explicit else nops):
+        if explicit:
+            op = ops[i]
+        elif i == nops - 1:
+            op = ["check"]
+        elif i == 0 and rng.random() < 0.8:
+            op = ["check"] if rng.random() < 0.5 else ["dump", rng.choice(DUMP_FORMS[:4])]
+        else:
+            op = _gen_op(rng, st["o"], donors)
+        i += 1
+        if op[0] == "check":
+            done.append(op)
+            if _verified(S, st["o"]):
+                tags.append("hist-check-after-%d-changes" % min(3, sum(1 for x in done if x[0] not in ("check", "dump"))))
+                V = check_instance(S, st["o"], a, name, hist=dict(inputs=[a, b], ops=list(done)))
+                if V:
+                    return V, tags
+            else:
+                tags.append("hist-state-unverified")
+            continue
+        if _apply(S, st, donors, op):
+            done.append(op)
+            tags.append("hist-op:" + op[0])
+            if op[0] in ("set", "unset", "copyupd", "copy") and len(op[1]) > (0 if op[0] in ("copy", "copyupd") else 1):
+                tags.append("hist-nested-change")
+        else:
+            tags.append("hist-op-refused:" + op[0])
+    return [], tags
+
+
 def impl(case):
     kind = case["kind"]
     if kind == "shrink":
@@ -168,6 +536,8 @@ def impl(case):
     if kind == "inst":
         S = G.installed_schemas()[case["schema"]]
         rng = random.Random(case["seed"])
+        hrng = random.Random(case["seed"] ^ 0x5BD1E995)
+        prev = None
         nvalid = 0
         for i in range(case["n"]):
             inp = G.gen_model_input(rng, S, case.get("depth", 2))
@@ -186,12 +556,19 @@ def impl(case):
             oracle += check_instance(S, o, json.loads(json.dumps(inp)), case["schema"])
             if len(inp) > 3:
                 tags.append("installed-rich")
+            if case.get("hist", True):
+                # a history on a live instance; donor = the previous valid input (or the same one)
+                a = json.loads(json.dumps(inp))
+                V, tg = run_history(S, a, prev if prev is not None else a, case["schema"], seed=hrng.randrange(1 << 30), nops=case.get("nops", 7))
+                oracle += V
+                tags += tg
+                prev = a
         tags.append("installed:%s" % case["schema"])
         if case["schema"] in G.UNRESOLVED:
             tags.append("forward-refs-unresolved:%s" % case["schema"])
         if nvalid == 0:
             tags.append("no-valid-instance:%s" % case["schema"])
-        return dict(out=None, oracle=oracle[:20], tags=tags, nvalid=nvalid)
+        return dict(out=None, oracle=oracle[:20], tags=sorted(set(tags)), nvalid=nvalid)
     if kind == "inst1":
         S = G.installed_schemas()[case["schema"]]
         for inp in case["inputs"]:
@@ -233,6 +610,28 @@ def impl(case):
         finally:
             F.close()
         return dict(out=out, oracle=oracle[:20], tags=sorted(set(tags)))
+    if kind == "hist":
+        # histories on live instances: generated family (fam/root) or installed schema (schema);
+        # explicit `ops` on inputs=[a, b], or `seeds`: one random history per seed on a pair of the inputs
+        F = G.Family(case["fam"]) if case.get("fam") else None
+        try:
+            S = F.classes[case["root"]] if F else G.installed_schemas()[case["schema"]]
+            name = case["root"] if F else case["schema"]
+            inputs = case["inputs"]
+            if case.get("ops") is not None:
+                V, tg = run_history(S, inputs[0], inputs[1 % len(inputs)], name, ops=case["ops"])
+                oracle += V
+                tags += tg
+            else:
+                for i, sd in enumerate(case["seeds"]):
+                    a, b = inputs[i % len(inputs)], inputs[(i + 1) % len(inputs)]
+                    V, tg = run_history(S, a, b, name, seed=sd, nops=case.get("nops", 8))
+                    oracle += V
+                    tags += tg
+        finally:
+            if F:
+                F.close()
+        return dict(out=None, oracle=oracle[:20], tags=sorted(set(tags)))
     raise ValueError(kind)
 
 
@@ -254,16 +653,40 @@ def _impl_shrink(req):
     if det is None:
         return dict(out=None, oracle=[], tags=[], case=case, detail=None)
     cur = case
-    if len(cur["inputs"]) > 1:
-        for inp in cur["inputs"]:
-            c = dict(cur, inputs=[inp])
+    if cur["kind"] == "hist":
+        # explicit history: cut after the failing check, drop ops, then shrink both inputs
+        ops = det["history"]["ops"]
+        cur = dict(cur, ops=ops)
+        i = len(ops) - 2
+        while i >= 0 and budget[0] > 0:
+            c = dict(cur, ops=cur["ops"][:i] + cur["ops"][i + 1:])
             d = fails(c)
             if d:
                 cur, det = c, d
-                break
-    inp = _shrink_json(cur["inputs"][0], lambda c: fails(dict(cur, inputs=[c])), budget)
-    cur = dict(cur, inputs=[inp])
-    if cur["kind"] == "fam":
+            i -= 1
+        c = dict(cur, inputs=[cur["inputs"][0], cur["inputs"][0]])  # is one input enough?
+        if fails(c):
+            cur = c
+        for which in (1, 0):
+            def t(x, which=which):
+                ins = list(cur["inputs"])
+                ins[which] = x
+                return fails(dict(cur, inputs=ins))
+            x = _shrink_json(cur["inputs"][which], t, budget)
+            ins = list(cur["inputs"])
+            ins[which] = x
+            cur = dict(cur, inputs=ins)
+    else:
+        if len(cur["inputs"]) > 1:
+            for inp in cur["inputs"]:
+                c = dict(cur, inputs=[inp])
+                d = fails(c)
+                if d:
+                    cur, det = c, d
+                    break
+        inp = _shrink_json(cur["inputs"][0], lambda c: fails(dict(cur, inputs=[c])), budget)
+        cur = dict(cur, inputs=[inp])
+    if cur.get("fam"):
         for cd_i in range(len(cur["fam"])):
             for part in ("fields", "consts"):
                 j = 0
@@ -415,6 +838,35 @@ def focused_families():
     return out
 
 
+def gen_hist_cases(ctx, n):
+    """Histories on live instances of generated families (biased to nested schemas and containers)."""
+    rng = ctx.rng
+    cases = []
+    for f, r, i in [(c["fam"], c["root"], c["inputs"]) for c in focused_families() if not c.get("nomodel")]:
+        cases.append(dict(kind="hist", fam=f, root=r, inputs=i, seeds=[rng.randrange(1 << 30) for _ in range(6 if ctx.quick else 40)], nops=9))
+    for i in range(n):
+        fam = G.rand_family(rng, n_classes=rng.randrange(1, 5), depth=rng.randrange(1, 3))
+        # roots that hold other schemas / containers first
+        rich = [cd["name"] for cd in fam if any(t in json.dumps(G.eff_fields(fam, cd["name"])) for t in ('"model"', '"list"', '"set"'))]
+        root = rng.choice(rich) if rich and rng.random() < 0.8 else rng.choice(fam)["name"]
+        inputs = [G.gen_obj(rng, fam, root, 2) for _ in range(3)]
+        cases.append(dict(kind="hist", fam=fam, root=root, inputs=inputs, seeds=[rng.randrange(1 << 30) for _ in range(3)], nops=rng.randrange(4, 11)))
+    return cases
+
+
+def run_hist(ctx, cases, group="histories"):
+    res = pool.run(MOD, "impl", cases, timeout=300)
+    for c, r in zip(cases, res):
+        if "timeout" in r:
+            ctx.oracle_hit(c, {"kind": "does-not-terminate", "limit_s": 300}, group=group)
+            continue
+        if "crash" in r:
+            raise lean.InfraError("harness crashed on %s: %s\n%s" % (core.canon(c)[:200], r["crash"], r.get("tb", "")))
+        for d in r["ok"]["oracle"]:
+            ctx.oracle_hit(c, d, group=group)
+        ctx.note_case(c, r["ok"]["tags"], len(c.get("seeds", [0])) * c.get("nops", len(c.get("ops") or [])))
+
+
 def gen_inst_cases(ctx, names):
     cases = []
     per = 3 if ctx.quick else 12
@@ -473,7 +925,9 @@ def run(ctx):
     ctx.rule = ("cases: (inst) every installed schema plugin, instances generated from the field hints (optional = omitted) and built with parse_obj; "
                 "(fam) families of 1-4 schema classes generated from the field-type grammar (strict primitives incl. falsy values, constrained strings, Literal, "
                 "Optional, unambiguous Unions, List, Set of hashables, nested / recursive / inherited schemas, Duration, PintUnit, PintQuantity, constants, extra policies, "
-                "defaults), 4-6 valid inputs each; hand-picked families always run. Non-trivial = tagged (has-dur/unit/qty/set/union/const/inheritance, omitted optional, falsy value, "
+                "defaults), 4-6 valid inputs each; hand-picked families always run; (hist) histories on one live instance of a generated family or an installed schema: "
+                "dump / assign at any depth / in-place list, dict, set updates / copy, copy(update) / re-parse, values from a second valid instance at the same field position, "
+                "all clauses re-checked on every reached state that equals a freshly validated instance. Non-trivial = tagged (has-dur/unit/qty/set/union/const/inheritance, omitted optional, falsy value, "
                 "rich installed instance).")
     ctx.assumptions += [
         "CPython float repr round-trips (hypothesis `FloatCodecOk` of C12.roundtrip; floats travel as repr tokens, compared by value)",
@@ -486,6 +940,7 @@ def run(ctx):
     fam_cases = [c for c in corpus if c["kind"] == "fam"] + focused_families() + gen_fam_cases(ctx, 300 if ctx.quick else 6000)
     ensure_nf(ctx, fam_cases)
     ctx.correspond("codec-families", MOD, fam_cases, lines, "drv_cod", compare=compare, timeout=120)
+    run_hist(ctx, [c for c in corpus if c["kind"] == "hist"] + gen_hist_cases(ctx, 150 if ctx.quick else 3000))
     names = installed_names()
     inst = [c for c in corpus if c["kind"] in ("inst", "inst1")] + gen_inst_cases(ctx, names)
     res = pool.run(MOD, "impl", inst, timeout=300)
@@ -526,8 +981,9 @@ def signature(case, detail):
             return "%s:yaml-nel-character" % ID
         if "mapping values are not allowed" in str(detail.get("error", "")) and any(len(x) > 80 and " " in x for x in strs):
             return "%s:yaml-long-key" % ID
-    where = case.get("schema") if case.get("kind") in ("inst", "inst1") else "generated"
-    return "%s:%s:%s" % (ID, kind, where)
+    where = case.get("schema") if case.get("schema") else "generated"
+    # a clause violated only on an instance reached by a history (dump / mutate / copy / re-parse ...)
+    return "%s:%s:%s%s" % (ID, kind, where, ":after-history" if detail.get("history") else "")
 
 
 def _fails(case, want):
@@ -575,9 +1031,12 @@ def _shrink_json(obj, test, budget):
 
 
 def shrink(ctx, case, detail):
-    if not isinstance(detail, dict) or case.get("kind") not in ("fam", "inst", "inst1"):
+    if not isinstance(detail, dict) or case.get("kind") not in ("fam", "inst", "inst1", "hist"):
         return case, detail
-    if case["kind"] in ("inst", "inst1"):
+    if detail.get("history"):
+        h = detail["history"]
+        case = dict(kind="hist", inputs=h["inputs"], ops=h["ops"], **({"fam": case["fam"], "root": case["root"]} if case.get("fam") else {"schema": case["schema"]}))
+    elif case["kind"] in ("inst", "inst1"):
         if not isinstance(detail.get("input"), dict):
             return case, detail
         case = dict(kind="inst1", schema=case["schema"], inputs=[detail["input"]])
@@ -593,6 +1052,12 @@ def search(ctx):
         cases = gen_fam_cases(sub, 150)
         res = pool.run(MOD, "impl", cases, timeout=120)
         ctx.search_log.append("seed %d: %d generated families, oracle only" % (sub.seed, len(cases)))
+        for c, r in zip(cases, res):
+            if "ok" in r and r["ok"]["oracle"]:
+                return shrink(ctx, c, r["ok"]["oracle"][0])
+        cases = gen_hist_cases(sub, 150)
+        res = pool.run(MOD, "impl", cases, timeout=300)
+        ctx.search_log.append("seed %d: %d histories on live instances, oracle only" % (sub.seed, len(cases)))
         for c, r in zip(cases, res):
             if "ok" in r and r["ok"]["oracle"]:
                 return shrink(ctx, c, r["ok"]["oracle"][0])
